@@ -1,3 +1,5 @@
+//go:build c18 || allprops
+
 package main
 
 import (
